@@ -22,7 +22,7 @@ func sendsControlPart(p *Prog, idx int) func(fn *Func, cs CallSite) bool {
 
 func init() {
 	register(&Property{ID: "C07", Run: runC07,
-		Explain: "Admission, pairing and existence rules of the mesh, decided for every router state: (R07.1) every own-initiative graft candidate comes from getPeers with a filter that returns true only for non-direct, non-backed-off peers with score >= 0 (opportunistic: > median, after the negative-score prune), the backoff map consulted by a filter is loaded after the last prune of the same iteration, getPeers keeps only connected mesh-capable peers accepted by the filter, and every key inserted into a mesh map is such a candidate; Join's fanout promotion drops members with negative score or backoff; (R07.2) handleGraft inserts only after: topic joined, not direct, not (backoff present and unexpired), score >= 0, not (mesh >= Dhi and not outbound), peerFilter; (R07.3) graftPeer/prunePeer closures pair the mesh write with the tograft/toprune append (and backoff), sendGraftPrune is on every heartbeat path, Join GRAFTs every member of the final mesh map, Leave PRUNEs every former member, and sendGraftPrune builds every PRUNE for a topic taken from the peer's toprune entry and every GRAFT for one from its tograft entry; (R07.4) mesh keys are created only in Join and deleted only in Leave, Join removes the topic's fanout/lastpub, fanout entries are created only by getFanoutPeersForPublishing which is consulted only on a failed mesh lookup; (R07.5) handleGraft admits only connected peers (known finding F8 today), OnClosedOutboundStream removes the peer from every mesh and fanout map; the heartbeat's negative-score loop prunes every negatively scored member; (R07.6) every integer division/modulo of the heartbeat by a parameter is safe for every accepted parameter set (validation rejects a zero divisor on every accepting path, including the bootstrapper early return). (audit round) R07.1: the promotion also drops direct peers; R07.2: the score judged is read after any penalty of the same control message (no stale use reachable from AddPenalty); R07.4: the lastpub stamp is deleted on every path of Join that creates the mesh. NOT decided: the quantitative post-conditions (grown to D, cut back to D keeping Dscore best / Dout outbound) — they depend on sorting run-time scores and random selection.",
+		Explain: "Admission, pairing and existence rules of the mesh, decided for every router state: (R07.1) every own-initiative graft candidate comes from getPeers with a filter that returns true only for non-direct, non-backed-off peers with score >= 0 (opportunistic: > median, after the negative-score prune), the backoff map consulted by a filter is loaded after the last prune of the same iteration, getPeers keeps only connected mesh-capable peers accepted by the filter, and every key inserted into a mesh map is such a candidate; Join's fanout promotion drops members with negative score or backoff; (R07.2) handleGraft inserts only after: topic joined, not direct, not (backoff present and unexpired), score >= 0, not (mesh >= Dhi and not outbound), peerFilter; (R07.3) graftPeer/prunePeer closures pair the mesh write with the tograft/toprune append (and backoff), sendGraftPrune is on every heartbeat path, Join GRAFTs every member of the final mesh map, Leave PRUNEs every former member, and sendGraftPrune builds every PRUNE for a topic taken from the peer's toprune entry and every GRAFT for one from its tograft entry; (R07.4) mesh keys are created only in Join and deleted only in Leave, Join removes the topic's fanout/lastpub, fanout entries are created only by getFanoutPeersForPublishing which is consulted only on a failed mesh lookup; (R07.5) handleGraft admits only connected peers (known finding F8 today), OnClosedOutboundStream removes the peer from every mesh and fanout map; the heartbeat's negative-score loop prunes every negatively scored member; (R07.6) every integer division/modulo of the heartbeat by a parameter is safe for every accepted parameter set (validation rejects a zero divisor on every accepting path, including the bootstrapper early return). (audit round) R07.1: the promotion also drops direct peers; R07.2: the score judged is read after any penalty of the same control message (no stale use reachable from AddPenalty); R07.4: the lastpub stamp is deleted on every path of Join that creates the mesh. (second wave) R07.6 is the inventory of every divisor, slice bound and make length that is a gossipsub parameter, plus who-may-write for divisors; G10 (shared) memo rule. NOT decided: the quantitative post-conditions (grown to D, cut back to D keeping Dscore best / Dout outbound) — they depend on sorting run-time scores and random selection.",
 		Assume:  []string{"gs.peers holds exactly the peers with an outbound stream (C13)", "shufflePeers/sort only permute"},
 		Mutants: []Mutant{
 			{Name: "validate-allows-negative-dscore", File: "gossipsub.go", Old: "params.Dhi < 0 || params.Dscore < 0 || params.Dout < 0", New: "params.Dhi < 0 || params.Dout < 0", Expect: "R07.6"},
@@ -47,7 +47,7 @@ func init() {
 			{Name: "negative-loop-break", File: "gossipsub.go", Old: "\t\t\t\tprunePeer(p)\n\t\t\t\tnoPX[p] = true\n", New: "\t\t\t\tprunePeer(p)\n\t\t\t\tnoPX[p] = true\n\t\t\t\tif len(peers) <= gs.params.Dlo {\n\t\t\t\t\tbreak\n\t\t\t\t}\n", Expect: "G10"},
 		}})
 	register(&Property{ID: "C08", Run: runC08,
-		Explain: "Prune backoff, decided for every history: (R08.1) every place that puts a ControlGraft into an outgoing RPC is enumerated; fresh GRAFTs take candidates from the backoff-filtered getPeers calls (C07 R07.1, shared) or from the fanout members that survive Join's backoff deletion; retried GRAFTs (piggybackControl, flush) are re-sent only on the edge 'peer still in the topic mesh'; (R08.2) inner backoff maps are written only by doAddBackoff under backoff[p].Before(expire) with expire = time.Now().Add(interval), entries are deleted only by clearBackoff under expire.Add(slack).Before(now) with a non-negative constant slack; (R08.3) backoff is recorded wherever C08 says (handlePrune: the peer's value when > 0 else the default; Leave: unsubscribe backoff for every member; prunePeer; the three refusing arms of handleGraft) and the backed-off GRAFT arm penalises once, and once more under now.Before(floodCutoff); (R08.4) makePrune states the backoff for every peer with the PX feature, choosing UnsubscribeBackoff/PruneBackoff by the same flag as addBackoff. (audit round) R08.3 is anchored at the joined-topic edge (backoff owed whether or not the sender was a member); (R08.5) the duration subtracted from the expiry to recover the prune time equals every duration handed to doAddBackoff (known finding F38). NOT decided: deadline arithmetic against (virtual) time.",
+		Explain: "Prune backoff, decided for every history: (R08.1) every place that puts a ControlGraft into an outgoing RPC is enumerated; fresh GRAFTs take candidates from the backoff-filtered getPeers calls (C07 R07.1, shared) or from the fanout members that survive Join's backoff deletion; retried GRAFTs (piggybackControl, flush) are re-sent only on the edge 'peer still in the topic mesh'; (R08.2) inner backoff maps are written only by doAddBackoff under backoff[p].Before(expire) with expire = time.Now().Add(interval), entries are deleted only by clearBackoff under expire.Add(slack).Before(now) with a non-negative constant slack; (R08.3) backoff is recorded wherever C08 says (handlePrune: the peer's value when > 0 else the default; Leave: unsubscribe backoff for every member; prunePeer; the three refusing arms of handleGraft) and the backed-off GRAFT arm penalises once, and once more under now.Before(floodCutoff); (R08.4) makePrune states the backoff for every peer with the PX feature, choosing UnsubscribeBackoff/PruneBackoff by the same flag as addBackoff. (audit round) R08.3 is anchored at the joined-topic edge (backoff owed whether or not the sender was a member); (R08.5) the duration subtracted from the expiry to recover the prune time equals every duration handed to doAddBackoff (known finding F38). (R08.6) a backoff named by the peer is bounded before it is scaled to a Duration; R08.4 also: the stated period is not rounded down. NOT decided: deadline arithmetic against (virtual) time.",
 		Assume:  []string{"time.Now is monotone enough for Before/Add comparisons", "SendControl is an application escape hatch (named exemption)"},
 		Mutants: []Mutant{
 			{Name: "stated-backoff-rounded-down", File: "gossipsub.go", Old: "\tbackoff := uint64((gs.params.PruneBackoff + time.Second - 1) / time.Second)\n", New: "\tbackoff := uint64(gs.params.PruneBackoff / time.Second)\n", Expect: "R08.4"},
